@@ -29,12 +29,26 @@ func (x *oaChecker) typeKey(name string) string {
 	return arraiKey(name)
 }
 
+// targetClass / missingClass: trigger class of a reference / definition problem. The
+// name class leads when the name is a native type name or starts with one (those defects
+// are independent of the schema kind), otherwise the schema kind leads.
 func (x *oaChecker) targetClass(name string) string {
-	c := "target-name=" + nameClass(name)
+	cls, kind := nameClass(name), "?"
 	if t := x.d.schema(name); t != nil {
-		c += ",target=" + schemaKind2(t)
+		kind = schemaKind2(t)
 	}
-	return c
+	if cls == "native-type-name" || cls == "native-prefix" {
+		return "target-name=" + cls + ",target=" + kind
+	}
+	return "target=" + kind + ",target-name=" + cls
+}
+
+func missingClass(name string, s *oaSchema) string {
+	cls, kind := nameClass(name), schemaKind2(s)
+	if cls == "native-type-name" || cls == "native-prefix" {
+		return "name=" + cls + ",schema=" + kind
+	}
+	return "schema=" + kind + ",name=" + cls
 }
 
 func (x *oaChecker) fieldKey(name string) string {
@@ -182,14 +196,14 @@ func (x *oaChecker) checkUse(where, what string, nameCls string, w want, got tyU
 	case w.RefKey != "":
 		g := x.follow(got, func(u tyUse) bool { return len(u.Ref) == 1 && u.Ref[0] == w.RefKey })
 		if len(g.Ref) != 1 || g.Ref[0] != w.RefKey {
-			x.fail(what+"-reference", w.Desc+","+x.targetClass(w.RefName), fmt.Sprintf("%s: expected %s, compiled %s", where, w, got))
+			x.fail("reference", x.targetClass(w.RefName)+"|"+what+","+w.Desc, fmt.Sprintf("%s: expected %s, compiled %s", where, w, got))
 			return
 		}
 		if g.Seq != w.Seq {
 			x.fail(what+"-arrayness", cons, fmt.Sprintf("%s: expected %s, compiled %s", where, w, got))
 		}
 		if x.af.Types[w.RefKey] == nil {
-			x.fail(what+"-reference", w.Desc+",dangling,"+x.targetClass(w.RefName), fmt.Sprintf("%s: reference to %s which the output does not define", where, w.RefKey))
+			x.fail("reference", x.targetClass(w.RefName)+"|"+what+","+w.Desc+",dangling", fmt.Sprintf("%s: reference to %s which the output does not define", where, w.RefKey))
 		}
 	default:
 		g := x.follow(got, func(u tyUse) bool { return w.AltRef != "" && len(u.Ref) == 1 && u.Ref[0] == w.AltRef })
@@ -285,7 +299,6 @@ func (x *oaChecker) mergedAllOf(s *oaSchema) (props []*oaProp, req []string) {
 func (x *oaChecker) checkSchemas() {
 	for _, n := range x.d.Schemas {
 		x.nSchemas++
-		cls := nameClass(n.Name)
 		kind := n.S.K
 		if kind == "arr" {
 			kind = schemaKind(n.S)
@@ -294,7 +307,7 @@ func (x *oaChecker) checkSchemas() {
 		def := x.af.Types[key]
 		where := "schema " + n.Name
 		if def == nil {
-			x.fail("type-missing", "schema="+schemaKind2(n.S)+",name="+cls, fmt.Sprintf("%s: no type %q in the compiled output; types: %v", where, key, sortedKeys(x.af.Types)))
+			x.fail("type-missing", missingClass(n.Name, n.S), fmt.Sprintf("%s: no type %q in the compiled output; types: %v", where, key, sortedKeys(x.af.Types)))
 			continue
 		}
 		switch n.S.K {
@@ -333,6 +346,10 @@ func schemaKind2(s *oaSchema) string {
 		return "object"
 	case "prim":
 		return "primitive:" + s.P.Type + "/" + s.P.Format
+	case "arr":
+		if s.Items.K == "prim" {
+			return "array-of-primitive:" + s.Items.P.Type + "/" + s.Items.P.Format
+		}
 	}
 	return schemaKind(s)
 }
@@ -486,7 +503,7 @@ func (x *oaChecker) checkResp(key string, ep *epFact, rs *oaResp) {
 		case w.RefKey != "":
 			if t == w.RefKey && c.Seq == w.Seq {
 				if x.af.Types[w.RefKey] == nil {
-					x.fail("response-type", cons+",dangling,"+x.targetClass(refName(rs.S)), fmt.Sprintf("%s: returns %s which the output does not define", where, t))
+					x.fail("reference", x.targetClass(refName(rs.S))+"|response,"+kind+",dangling", fmt.Sprintf("%s: returns %s which the output does not define", where, t))
 				}
 				return
 			}
@@ -499,7 +516,14 @@ func (x *oaChecker) checkResp(key string, ep *epFact, rs *oaResp) {
 		}
 	}
 	if w.RefKey != "" {
-		cons += "," + x.targetClass(refName(rs.S))
+		for _, c := range cands {
+			if unesc(c.Type) == w.RefKey && c.Seq != w.Seq {
+				x.fail("response-arrayness", cons, fmt.Sprintf("%s: expected type %q, returns: %v", where, w.String(), rets(cands)))
+				return
+			}
+		}
+		x.fail("reference", x.targetClass(refName(rs.S))+"|response,"+kind, fmt.Sprintf("%s: expected type %q, returns: %v", where, w.String(), rets(cands)))
+		return
 	}
 	x.fail("response-type", cons, fmt.Sprintf("%s: expected type %q, returns: %v", where, w.String(), rets(cands)))
 }
